@@ -28,6 +28,8 @@ SCENARIOS = {
     "two_workers_both_directions": (2, [("ann", 0, 0), ("ann", 1, 1), ("flush",), ("ann", 1, 2), ("flush",)]),
     "three_workers": (3, [("ann", 0, 0), ("ann", 0, 1), ("flush",), ("ann", 1, 2), ("flush",)]),
     "three_workers_peer_drops": (3, [("ann", 0, 0), ("flush",), ("drop", 2), ("ann", 0, 1), ("ann", 1, 2), ("flush",)]),
+    # the peer goes away with a connection reset (the server's read raises) instead of a clean end of stream, half an id sent
+    "three_workers_peer_resets": (3, [("ann", 0, 0), ("flush",), ("half", 2), ("reset", 2), ("ann", 0, 1), ("ann", 1, 2), ("flush",)]),
 }
 
 
@@ -141,6 +143,18 @@ def run_scenario(ns, name, cuts, order):
                 ev = types.SimpleNamespace(id=EVS[ei]["id"], id_bytes=bytes.fromhex(EVS[ei]["id"]))
                 loop.run_coro(workers[wi]["client"].notify(ev), horizon=10.0)
                 announced[wi].append(EVS[ei]["id"])
+            elif st[0] == "half":
+                wk = workers[st[1]]
+                wk["w_cli"].write(bytes.fromhex(EVS[3]["id"])[:16])
+            elif st[0] == "reset":
+                wk = workers[st[1]]
+                wk["alive"] = False
+                wk["up"].closed = True
+                wk["dn"].closed = True
+                wk["r_srv"].set_exception(ConnectionResetError("connection reset by peer"))
+                wk["r_cli"].set_exception(ConnectionResetError("connection reset by peer"))
+                wk["w_srv"].closed = True
+                loop.drain(horizon=10.0)
             elif st[0] == "drop":
                 wk = workers[st[1]]
                 wk["alive"] = False
@@ -193,6 +207,8 @@ def cut_plans(name, k, ns):
 # ("disk first": SQL jobs before pipe deliveries; "network first": pipe deliveries before SQL jobs).
 RW_EV = make_event("A", 1, 300, [["t", "x"], ["e", "ab" * 32]], "announced across workers")
 RW_EV2 = make_event("A", 0, 301, [], "{}")
+RW_EV3 = make_event("A", 20001, 302, [["t", "x"]], "ephemeral, announced like any other event")
+RW_EVENTS = {"tagged": RW_EV, "kind0": RW_EV2, "ephemeral": RW_EV3}
 
 
 class JobWriter:
@@ -234,7 +250,7 @@ def rw_scenario(backend, policy, evname):
     from ..explorer import Scenario
     import types
 
-    ev = RW_EV if evname == "tagged" else RW_EV2
+    ev = RW_EVENTS[evname]
     state = {}
 
     def setup(w):
@@ -297,7 +313,7 @@ def rw_cases(tier):
 
     out = []
     for policy in ("disk-first", "network-first"):
-        for evname in ("tagged", "kind0"):
+        for evname in ("tagged", "kind0", "ephemeral"):
             scn = rw_scenario("sql", policy, evname)
             out.append(("rw", policy, evname, ()))
             if tier == "thorough":
@@ -313,7 +329,7 @@ def run_rw(case, tier):
 
     _, policy, evname, prefix = case
     scn = rw_scenario("sql", policy, evname)
-    ev = RW_EV if evname == "tagged" else RW_EV2
+    ev = RW_EVENTS[evname]
     viol = []
     cid = "realworkers|%s|%s" % (policy, evname)
     stats = {"n": 0}
